@@ -68,6 +68,18 @@ Join2(a, b) ==                         \* path.Join(a, b): empty elements are ig
   ELSE Clean(a \o <<"SL">> \o b)
 Join1(a) == IF a = <<>> THEN <<>> ELSE Clean(a)
 
+\* The spellings of one directory a caller may hand to WithTargetDir (relative to the directory above `parent`): all of
+\* them Clean to the same path, so every operation behaves as for the clean one.  The replays hand the target over in
+\* each of them by turns; MC_FsC checks SpellingsAgree for the jail's names (ASSUME).
+TargetSpellings(parent, p) ==
+  [plain  |-> parent \o <<"SL">> \o p,
+   slash  |-> parent \o <<"SL">> \o p \o <<"SL">>,
+   dot    |-> <<"DOT", "SL">> \o parent \o <<"SL">> \o p,
+   dslash |-> parent \o <<"SL", "SL">> \o p,
+   dotin  |-> parent \o <<"SL", "DOT", "SL">> \o p]
+SpellingsAgree(parent, p) ==
+  \A k \in DOMAIN TargetSpellings(parent, p) : Clean(TargetSpellings(parent, p)[k]) = parent \o <<"SL">> \o p
+
 \* fs.ValidPath
 ValidPath(p) ==
   \/ p = <<"DOT">>
